@@ -179,9 +179,14 @@ def uses_of_local(body, l):
     return out
 
 
-def backward_slice(body, operand, max_steps=400):
+RECEIVER_ONLY = ("core::iter::traits::iterator::Iterator::", "core::iter::traits::collect::IntoIterator::", "core::option::Option::<",
+                 "core::result::Result::<", "core::slice::<impl [T]>::iter", "core::iter::traits::double_ended::DoubleEndedIterator::")
+
+
+def backward_slice(body, operand, max_steps=400, data_only=False):
     """locals and calls an operand's value may derive from (intraprocedural, through all defs, projections ignored).
-    returns (set(locals), [Call...], [cast statements])"""
+    returns (set(locals), [Call...], [cast statements]). With data_only, iterator / Option / Result adapters are followed
+    through their receiver only: the elements of `xs.iter().find(|x| x.id == wanted)` come from `xs`, not from `wanted`."""
     seen, calls, casts = set(), [], []
     work = []
     if operand[0] in ("c", "m"):
@@ -196,7 +201,10 @@ def backward_slice(body, operand, max_steps=400):
         for d in body.defs.get(l, []):
             if d[0] == "call":
                 calls.append(d[2])
-                for a in d[2].args:
+                args = d[2].args
+                if data_only and args and (d[2].callee.get("def") or "").startswith(RECEIVER_ONLY):
+                    args = args[:1]
+                for a in args:
                     if a[0] in ("c", "m"):
                         work.append(a[1][0])
             elif d[0] in ("stmt", "part"):
@@ -411,4 +419,23 @@ def captured_context(facts, child, st_child):
                     break
             if ok:
                 out.append(st)
+    return out
+
+
+def truth_edges(body, df, expr):
+    """[(switch block, target when `expr` is true, target when false)] for every SwitchInt that branches on the boolean `expr`
+    or on its negation (`let alive = !flag.load(..); if alive {..}`), polarity already folded in"""
+    out = []
+    for bb in body.live_blocks:
+        t = body.term(bb)
+        if t[0] != "switch":
+            continue
+        e = df.expr_of_operand(t[1])
+        flip = False
+        while e[0] == "not":
+            e, flip = e[1], not flip
+        if e != expr:
+            continue
+        tt, ff = bool_edges(body, bb)
+        out.append((bb, ff, tt) if flip else (bb, tt, ff))
     return out
